@@ -175,7 +175,15 @@ func drawScenario() *Scenario {
 			if i%2 == 1 {
 				fs.to = feeR2
 			}
-			fi := &actiontypes.FeeInfo{Recipient: fs.to.String()}
+			rcp := fs.to.String()
+			// fee recipients: an ordinary account, or the orbiter account itself in either spelling
+			switch verif.Choose("fee-recipient", verif.Bound("feeRcpKinds")) {
+			case 1:
+				fs.to, rcp = core.ModuleAddress, core.ModuleAddress.String()
+			case 2:
+				fs.to, rcp = core.ModuleAddress, orbiterUpper()
+			}
+			fi := &actiontypes.FeeInfo{Recipient: rcp}
 			if verif.Bool("fee-is-bps") {
 				fs.bps, fs.bpsV = true, verif.Uint32("bps")
 				fi.FeeType = &actiontypes.FeeInfo_BasisPoints_{BasisPoints: &actiontypes.FeeInfo_BasisPoints{Value: fs.bpsV}}
